@@ -3,7 +3,7 @@ from __future__ import annotations
 
 import ast
 
-from ..engine import AnalysisError, PropertySpec, norm
+from ..engine import AnalysisError, MechanismMissing, PropertySpec, norm
 from ..pyutil import call_name, calls, is_name, walk_local
 
 AST = "src/pymoca/ast.py"
@@ -231,7 +231,11 @@ def every_globbed_file_listed(ctx, rep, R):
           and isinstance(lp.target, ast.Name)]
     comp = [c for c in ast.walk(fn) if isinstance(c, (ast.ListComp, ast.GeneratorExp)) and any(
         isinstance(x.func, ast.Attribute) and x.func.attr in ("glob", "rglob") for g in c.generators for x in calls(g.iter))]
-    if not gl and not comp:
+    whole = [c for c in calls(fn) if isinstance(c.func, ast.Attribute) and c.func.attr == "extend" and len(c.args) == 1 and isinstance(c.args[0], ast.Call)
+             and isinstance(c.args[0].func, ast.Attribute) and c.args[0].func.attr in ("glob", "rglob")]
+    if whole:
+        rep.ob(R, site, "every file the search of a directory finds is listed", True, "")
+    if not gl and not comp and not whole:
         raise MechanismMissing(R, "the loop over the files a directory's glob yields was not found in list_modelica_files")
     for lp in gl:
         v = lp.target.id
